@@ -64,6 +64,9 @@ type Mailbox struct {
 	codec             vivid.Codec
 	eventStream       vivid.EventStream
 	backoff           *utils.ExponentialBackoff
+	queue             []vivid.Envelop // 等待发送的消息，按入队顺序
+	queueLock         sync.Mutex
+	draining          bool // 是否已有发送协程在处理队列
 }
 
 func (m *Mailbox) Pause() {
@@ -78,7 +81,52 @@ func (m *Mailbox) IsPaused() bool {
 	return false
 }
 
+// Enqueue 将消息放入该远程地址的发送队列后立即返回：建立连接、重连退避与写入均在独立的发送协程中按入队顺序进行，
+// 不会阻塞调用方（Tell 的调用者通常是某个 Actor 的消息处理协程，在其中睡眠等待重连会使该 Actor 停止处理邮箱）。
 func (m *Mailbox) Enqueue(envelop vivid.Envelop) {
+	m.queueLock.Lock()
+	m.queue = append(m.queue, envelop)
+	if m.draining {
+		m.queueLock.Unlock()
+		return
+	}
+	m.draining = true
+	m.queueLock.Unlock()
+	go m.drain()
+}
+
+// drain 按入队顺序逐条发送队列中的消息，队列为空时退出。
+// 某条消息在用尽重连次数后仍无法发送时，说明对端当前不可达：此刻已在队列中等待的消息一并按发送失败处理，
+// 避免对端长时间不可达时每条消息各自重试一遍、队列无限增长。
+func (m *Mailbox) drain() {
+	for {
+		m.queueLock.Lock()
+		if len(m.queue) == 0 {
+			m.queue = nil
+			m.draining = false
+			m.queueLock.Unlock()
+			return
+		}
+		envelop := m.queue[0]
+		m.queue[0] = nil
+		m.queue = m.queue[1:]
+		m.queueLock.Unlock()
+
+		if m.send(envelop) {
+			continue
+		}
+		m.queueLock.Lock()
+		pending := m.queue
+		m.queue = nil
+		m.queueLock.Unlock()
+		for _, failed := range pending {
+			m.envelopHandler.HandleFailedRemotingEnvelop(failed)
+		}
+	}
+}
+
+// send 发送一条消息（必要时建立连接并按配置重试），返回是否已写入连接；失败的消息已交由 HandleFailedRemotingEnvelop 处理。
+func (m *Mailbox) send(envelop vivid.Envelop) (sent bool) {
 	m.connectionLock.Lock()
 	defer m.connectionLock.Unlock()
 
@@ -117,7 +165,9 @@ func (m *Mailbox) Enqueue(envelop vivid.Envelop) {
 
 	if err != nil {
 		m.envelopHandler.HandleFailedRemotingEnvelop(envelop)
+		return false
 	}
+	return true
 }
 
 // getOrCreateConnection 在 singleflight 内获取或创建 TCP 连接，调用方需已持 connectionLock。
